@@ -218,7 +218,9 @@ func schedRun(scens []*scenario, prop string) func(c *mc.Ctx, s schedSpec) {
 		sc := scens[s.Scen]
 		cs := conflictSets[sc.name]
 		one := func(prefix []int, opts [][]string) *vrt.Sched {
+			c.Doing = fmt.Sprintf("schedule %v of %q", prefix, sc.name)
 			x, sch := runSchedule(sc, prefix, opts)
+			c.Doing += " (executed; judging)"
 			c.Traces++
 			c.Transitions += int64(sch.Steps)
 			c.Count("executions", 1)
